@@ -176,3 +176,52 @@ Example shape_lost_blank_not_alone : shape [mk KWs [32%N]; mk KBlank []; CR] = f
 Proof. reflexivity. Qed.
 Example shape_lost_empty_ws : shape [mk KItem [97%N]; mk KWs []; mk KItem [98%N]; CR] = false.
 Proof. reflexivity. Qed.
+
+(* ---- what the normaliser after phase 1 (utils.fix_blank_lines) restores of the shape, and what it does not ---- *)
+Fixpoint no_cr_cr (l : list tok) : bool :=
+  match l with
+  | a :: r => match r with b :: _ => negb (is_cr a && is_cr b) | [] => true end && no_cr_cr r
+  | [] => true
+  end.
+Definition hd_not_cr (l : list tok) : Prop := match l with [] => True | h :: _ => is_cr h = false end.
+
+Lemma no_cr_cr_cons a X : no_cr_cr X = true -> (is_cr a = false \/ hd_not_cr X) -> no_cr_cr (a :: X) = true.
+Proof.
+  intros HX H. cbn [no_cr_cr]. rewrite HX, andb_true_r. destruct X as [|b X']; [reflexivity|].
+  destruct H as [H|H]; [rewrite H; reflexivity|]. cbn in H. rewrite H, andb_false_r. reflexivity.
+Qed.
+
+Lemma fbl_head_not_cr all prev t r : is_cr t = false -> hd_not_cr (fbl all prev (t :: r)).
+Proof.
+  intros H. cbn [fbl]. unfold is_cr in H. rewrite H. cbn [andb].
+  destruct (okind_is prev KCr && kind_eqb (tk t) KWs && okind_is _ KCr); cbn; [reflexivity|exact H].
+Qed.
+
+Theorem fbl_no_cr_cr all l : forall prev, no_cr_cr (fbl all prev l) = true.
+Proof.
+  induction l as [|t r IH]; intros prev; [reflexivity|].
+  cbn [fbl].
+  set (next := match r with n :: _ => Some (tk n) | [] => None end).
+  destruct (kind_eqb (tk t) KCr && okind_is next KCr) eqn:E1.
+  - apply no_cr_cr_cons; [|right; reflexivity].
+    apply no_cr_cr_cons; [apply IH|left; reflexivity].
+  - destruct (okind_is prev KCr && kind_eqb (tk t) KWs && okind_is next KCr) eqn:E2.
+    + apply no_cr_cr_cons; [apply IH|left; reflexivity].
+    + apply no_cr_cr_cons; [apply IH|].
+      destruct (kind_eqb (tk t) KCr) eqn:Et; [|left; exact Et].
+      right. cbn [andb] in E1. destruct r as [|n r']; [exact I|].
+      apply fbl_head_not_cr. unfold next, okind_is in E1. exact E1.
+Qed.
+
+(* every empty line that is not the first gets its blank_line object *)
+Theorem fix_blank_lines_no_empty_inner_line l : no_cr_cr (fix_blank_lines l) = true.
+Proof. apply fbl_no_cr_cr. Qed.
+
+(* ... but an empty first line keeps none, and a blank_line object left on a line that is no longer empty is never
+   removed: after these the model is not something the reader can return (witnesses for the known C08 findings) *)
+Example normaliser_first_line_refuted :
+  exists l, fix_trailing_whitespace (fix_blank_lines l) = l /\ shape l = false /\ hd_error l = Some CR.
+Proof. exists [CR; mk KItem [97%N]; CR]. repeat split. Qed.
+Example normaliser_stale_blank_refuted :
+  exists l, fix_trailing_whitespace (fix_blank_lines l) = l /\ shape l = false /\ no_cr_cr l = true.
+Proof. exists [mk KItem [97%N]; mk KBlank []; CR]. repeat split. Qed.
